@@ -84,7 +84,7 @@ def run_k6(tier, seed):
     gen_harness.main()
     bins = ensure_harness(["k3"])
     r = random.Random(seed * 101 + 7)
-    per_shape = 8 if tier == "quick" else 60
+    per_shape = 8 if tier == "quick" else 150
     cases = []
     cid = 0
     for (src, ch) in gen_harness.tok_shapes():
